@@ -294,18 +294,46 @@ def replay(case):
 
 
 def check_type2():
+    """However a file came to be of type 2 - constructor, assignment, loaded from bytes - and
+    however many tracks it has: length, iteration and play are refused; the same file as type
+    0 / 1 is not."""
+    import io
     import mido
-    mid = mido.MidiFile(type=2)
-    mid.tracks.append(mido.MidiTrack([mido.Message('note_on', time=1)]))
-    for what, f in (('length', lambda: mid.length), ('iteration', lambda: list(mid)),
-                    ('play', lambda: list(mid.play(now=lambda: 0.0)))):
+
+    def files():
+        for ntracks in (1, 2, 0):
+            def fill(mid):
+                for _ in range(ntracks):
+                    mid.tracks.append(mido.MidiTrack([mido.Message('note_on', time=1)]))
+                return mid
+            yield 'constructor/%d tracks' % ntracks, fill(mido.MidiFile(type=2))
+            m = fill(mido.MidiFile(type=1))
+            m.type = 2
+            yield 'assigned/%d tracks' % ntracks, m
+            if ntracks:
+                buf = io.BytesIO()
+                fill(mido.MidiFile(type=2)).save(file=buf)
+                yield 'loaded/%d tracks' % ntracks, mido.MidiFile(file=io.BytesIO(buf.getvalue()))
+                m = mido.MidiFile(file=io.BytesIO(buf.getvalue()))
+                m.type = 1
+                m.type = 2
+                yield 'loaded, set to 1 and back/%d tracks' % ntracks, m
+    for how, mid in files():
+        for what, f in (('length', lambda: mid.length), ('iteration', lambda: list(mid)),
+                        ('play', lambda: list(mid.play(now=lambda: 0.0))), ('iteration again', lambda: list(mid))):
+            try:
+                f()
+            except (TypeError, ValueError):
+                continue
+            except Exception as e:
+                return 'type2-wrong-exception', '%s of a type 2 file (%s) raised %r' % (what, how, e)
+            return 'type2-not-refused', '%s of a type 2 file (%s) did not raise' % (what, how)
+        mid.type = 1 if len(mid.tracks) != 1 else 0
         try:
-            f()
-        except (TypeError, ValueError):
-            continue
+            if not isinstance(mid.length, (int, float)) or (mid.tracks and not list(mid)):
+                return 'type2-sticky', 'after the type was changed from 2 to %d the file does not play (%s)' % (mid.type, how)
         except Exception as e:
-            return 'type2-wrong-exception', '%s of a type 2 file raised %r' % (what, e)
-        return 'type2-not-refused', '%s of a type 2 file did not raise' % what
+            return 'type2-sticky', 'after the type was changed from 2 to %d: %r (%s)' % (mid.type, e, how)
     return None
 
 
